@@ -3,7 +3,9 @@ M6 correspondence + monitors for C13/C14: the REAL till.daemon and Till() under 
 scheduler on a virtual clock, against Model/Till.lean.  Clock unit: 1/1024 s; till.INTERVAL is patched to
 0.125 s (=128 ticks) so every float in till.py is exact; the real value 0.1 is asserted before patching.
 """
+import os
 import sys
+import weakref
 
 from . import detsched as ds
 
@@ -33,20 +35,38 @@ def gen_scenario(rng, prop="C13"):
     return {"threads": threads, "stop_at": stop_at}
 
 
-def gen_crash(rng):
-    """C14 outside the model (monitors only): the daemon does not stop because it was asked to, it dies — an absolute deadline
-    that its arithmetic cannot handle (`Till(till=-(10**400))`: int minus float overflows inside the loop).  Every outstanding
-    Till must still become true, and so must every Till made afterwards."""
+def gen_crash(rng, allow_crash=True):
+    """C13 / C14 outside the model (monitors only):
+    * the daemon does not stop because it was asked to, it dies — an absolute deadline that its arithmetic cannot handle
+      (`Till(till=-(10**400))`: int minus float overflows inside the loop).  Every outstanding Till must still become true, and
+      so must every Till made afterwards;
+    * Tills whose last reference is dropped while they are pending (the daemon holds them weakly): the others stay on time;
+    * a Till that never comes due by itself (`seconds=inf`): shutdown makes it true like any other."""
     sc = gen_scenario(rng, "C14")
-    sc["stop_at"] = None
-    k = rng.randrange(len(sc["threads"]))
-    ops = sc["threads"][k]
-    pos = rng.randint(0, len(ops))
-    while pos < len(ops) and ops[pos][0] == "wait":      # keep a `wait` attached to the Till made before it
-        pos += 1
-    at = rng.choice([0, 1, 60, 130, 200, 300])
-    ops.insert(pos, ["crash", at])
-    sc["crash"] = True
+    kinds = [k for k in ("crash", "drop", "inf") if rng.random() < 0.45 and (allow_crash or k != "crash")] or ["drop"]
+    if "crash" in kinds:
+        sc["stop_at"] = None
+        k = rng.randrange(len(sc["threads"]))
+        ops = sc["threads"][k]
+        pos = rng.randint(0, len(ops))
+        while pos < len(ops) and ops[pos][0] == "wait":      # keep a `wait` attached to the Till made before it
+            pos += 1
+        ops.insert(pos, ["crash", rng.choice([0, 1, 60, 130, 200, 300])])
+    if "drop" in kinds:
+        # a thread that makes far-away Tills, lets go of one in the middle, then makes a near one and waits for it
+        at = rng.choice([10, 10, 130])
+        # (the one that is let go has been sorted into the daemon's list by then: a scan later)
+        ops = [["till", at, rng.choice([400, 520])], ["till", at, rng.choice([640, 700])], ["till", at, rng.choice([800, 900])],
+               ["drop", at + rng.choice([140, 200, 270]), 1],
+               ["till", at + rng.choice([280, 300]), rng.choice([30, 64, 100])], ["wait"]]
+        sc["threads"].append(ops)
+        if sc["stop_at"] is not None and sc["stop_at"] < 700:
+            sc["stop_at"] = None
+    if "inf" in kinds:
+        sc["threads"].append([["till_inf", rng.choice([0, 50, 200])]] + ([["wait"]] if rng.random() < 0.7 else []))
+        if sc["stop_at"] is None and "crash" not in kinds:
+            sc["stop_at"] = rng.choice([300, 700, 1100])
+    sc["crash"] = True           # (the name of the side: monitors only, weak bookkeeping)
     return sc
 
 
@@ -58,7 +78,7 @@ def _ticks(x):
 
 
 def shape(sc):
-    return ("crash:" if sc.get("crash") else "") + "/".join("".join(({"till": "T", "tilla": "A", "crash": "X"}.get(o[0], "w")) for o in t) for t in sc["threads"]) + (":S%s" % sc["stop_at"] if sc["stop_at"] is not None else "")
+    return ("crash:" if sc.get("crash") else "") + "/".join("".join(({"till": "T", "tilla": "A", "crash": "X", "drop": "d", "till_inf": "I"}.get(o[0], "w")) for o in t) for t in sc["threads"]) + (":S%s" % sc["stop_at"] if sc["stop_at"] is not None else "")
 
 
 def run_scenario(sc, chooser=None, seed=0, max_steps=8000, horizon_ticks=1400):
@@ -186,7 +206,7 @@ def run_scenario(sc, chooser=None, seed=0, max_steps=8000, horizon_ticks=1400):
             if vt is not None and vt.name in st["pending_id"]:
                 i = st["pending_id"].pop(vt.name)
                 self.lock = ds.SchedLock()
-                sched.trace(self, "L%d" % i)
+                sched.trace(self, "L%d" % i, keep=not sc.get("crash"))
                 st["created"][i] = self
                 def rec(i=i):
                     st["fire_time"][i] = int(round(sched.clock * TICK))
@@ -213,24 +233,52 @@ def run_scenario(sc, chooser=None, seed=0, max_steps=8000, horizon_ticks=1400):
         def run():
             last = None
             last_deadline = None
+            keep = []
+            keep_ids = []
+            last_id = None
             for op in ops:
                 if op[0] in ("till", "tilla"):
                     sched.until(op[1] / TICK)
                     now = int(round(sched.clock * TICK))
                     sched.note("call", ti, "till" if op[0] == "till" else "tillabs", op[2])
                     n_before = st["nextid"]
+                    last_id = n_before
+                    en_before = bool(ds.raw(tillmod.enabled, "_go"))      # timers are on (before and after the call: see below)
                     last_deadline = now + op[2]
                     if op[0] == "till":
                         t = tillmod.Till(seconds=op[2] / TICK)
                     else:
                         t = tillmod.Till(till=sched.clock + op[2] / TICK)
+                    keep.append(t)
+                    keep_ids.append(n_before)
                     if op[0] == "till" and op[2] <= 0 and not bool(ds.raw(t, "_go")):
                         st["viol"].append("C13: Till(seconds=%s) is not true immediately (non-positive seconds)" % (op[2] / TICK))
+                    if (op[2] > 0 and int(round(sched.clock * TICK)) < last_deadline and en_before and bool(ds.raw(tillmod.enabled, "_go"))
+                            and not ds.raw(please_stop, "_go") and (t is signals.DONE or bool(ds.raw(t, "_go")))):
+                        st["viol"].append("C13: a Till made at tick %d with its deadline at tick %d is true at once, %d ticks early"
+                                          % (now, last_deadline, last_deadline - int(round(sched.clock * TICK))))
                     if t is signals.DONE:
                         st["returned_done"].append((ti, op[2], now))
                         last = t
                     else:
                         last = t
+                elif op[0] == "drop":
+                    # let go of one of the Tills made by this thread (op[2]: which, counted from the first; default the last one),
+                    # not before tick op[1]; the others stay referenced
+                    if len(op) > 1:
+                        sched.until(op[1] / TICK)
+                    k = op[2] if len(op) > 2 and op[2] < len(keep) else len(keep) - 1
+                    if keep:
+                        keep.pop(k)
+                        st["created"].pop(keep_ids.pop(k), None)      # the harness lets go of it too (nothing else holds it in this mode)
+                    last = None
+                    t = None
+                elif op[0] == "till_inf":
+                    sched.until(op[1] / TICK)
+                    last_deadline = 10 ** 9
+                    sched.note("call", ti, "till", 10 ** 7)      # (for the bookkeeping of the trace: a deadline beyond every horizon)
+                    t = tillmod.Till(seconds=float("inf"))
+                    last = t
                 elif op[0] == "crash":
                     sched.until(op[1] / TICK)
                     try:
@@ -290,6 +338,8 @@ def run_scenario(sc, chooser=None, seed=0, max_steps=8000, horizon_ticks=1400):
             viol.append("C13: Till %d (deadline %d, registered %d) fired at tick %d, more than one interval (%d) late" % (i, dl, reg, ftime, I_TICKS))
     end_clock = int(round(sched.clock * TICK))
     for i, (dl, reg, ftime, normal) in info["timers"].items():
+        if sc.get("crash") and i not in st["created"]:
+            continue            # nobody holds it any more: a Till that is garbage never fires, and nobody can tell
         if ftime is None and reg is not None and not info["stopped"] and end_clock > max(dl, reg) + I_TICKS:
             viol.append("C13: Till %d (deadline %d, registered %d) still not fired at tick %d" % (i, dl, reg, end_clock))
     for (ti, secs, now) in st["returned_done"]:
